@@ -53,6 +53,30 @@ def run (t : Tier) : Emit Unit := do
     let spec := tablePositions m [0, 0x1000, 0x1001] (·.sectionsEnd)
     emit "C02" (demuxCase bs { view := .tablepos, size := if auto then 0 else 188 } none (some spec) "tables-no-readahead")
 
+  -- a unit of the PMT PID in front of the PAT (a capture that starts mid-cycle; it carries nothing decodable): the PMTs that
+  -- follow the PAT are still returned by the calls that read their final packets
+  for i in [0:(if t.quick then 6 else 30)] do
+    let m ← liftGen (genStream { pesPIDs := [0x100], pmtPIDs := [0x1000], dvb := false, unitsPerPID := 2, multiPMT := 2, longPMT := i % 2 = 0 })
+    let strayU : TSUnit := { pid := 0x1000, payload := [0] ++ List.replicate 20 0xff, data := [], psi := true, chunks := [21], sectionsEnd := 1 }
+    let m2 : StreamModel := { units := strayU :: m.units, schedule := 0x1000 :: m.schedule }
+    let spec := tablePositions m2 [0, 0x1000] (·.sectionsEnd)
+    emit "C02" (demuxCase m2.bytes { view := .tablepos } none (some spec) "pmt-pid-seen-before-pat")
+    emit "C02" (demuxCase m2.bytes { view := .perpid } none (some (showPerPID m2.expected 0 "eof")) "pmt-pid-seen-before-pat-data")
+  -- sections the library does not decode (TDT 0x70, RST 0x71, BAT 0x4a, ST 0x72, DIT 0x7e, SIT 0x7f) are stepped over by
+  -- their section_length: the sections that follow them in the same unit are delivered
+  for tid in [0x70, 0x71, 0x4a, 0x72, 0x7e, 0x7f] do
+    let body ← liftGen (randBytes (← liftGen (randRange 1 20)))
+    let raw : Bytes := [tid, 0x70 + body.length / 256, body.length % 256] ++ body
+    let (s1, b1) ← liftGen (genSectionOfKind 5 false)
+    let (s2, b2) ← liftGen (genSectionOfKind 5 false)
+    let ptr ← liftGen (randBelow 3)
+    let bytes := Spec.unitEncode ptr [raw, b1, b2] 0
+    let (chunks, _) ← liftGen (mkChunks bytes.length false)
+    let u : TSUnit := { pid := 0x14, payload := bytes, data := [dataOfSection s1, dataOfSection s2], psi := true, chunks := chunks,
+                        sectionsEnd := bytes.length }
+    let pes ← liftGen (genPESUnit 0x100 200)
+    let m : StreamModel := { units := [u, pes], schedule := [] }
+    emit "C02" (demuxCase m.bytes { view := .perpid } none (some (showPerPID m.expected 0 "eof")) "undecoded-section-stepped-over")
   -- outside the property's domain (ISO/IEC 13818-1 2.4.4.1): an inner section of a PMT unit starting on the first
   -- payload byte of a continuation packet; model and implementation are compared, nothing is judged
   for _ in [0:10 * t.scale] do
